@@ -154,6 +154,15 @@ theorem C36_same_set_same_preimage (c : Config) (lt : Name → Name → Prop)
   exact eq_of_pairwise_of_mem_iff (fun r s : Rec => lt r.1 s.1) (fun r => irrefl r.1)
     (fun r s => asymm r.1 s.1) _ _ (key l₁ s₁) (key l₂ s₂) h
 
+/-- The same for the order `os.ReadDir` really uses (byte-wise lexicographic file names):
+two sorted listings whose relevant record *sets* agree have the same preimage. -/
+theorem C36_same_set_same_preimage_sorted (c : Config) (l₁ l₂ : List Entry)
+    (s₁ : l₁.Pairwise (fun x y => x.name < y.name)) (s₂ : l₂.Pairwise (fun x y => x.name < y.name))
+    (h : ∀ r, r ∈ relevant c.isClass l₁ ↔ r ∈ relevant c.isClass l₂) :
+    preimage c (some l₁) = preimage c (some l₂) :=
+  C36_same_set_same_preimage c (fun a b => a < b) (fun a => List.lt_irrefl a)
+    (fun _ _ h => List.lt_asymm h) l₁ l₂ s₁ s₂ h
+
 /-! ## the encoding before the fix was not injective -/
 
 def oldA : Name := [0x61, 0x2e, 0x67, 0x6f]      -- "a.go"
@@ -191,6 +200,15 @@ example : relevant cfgSpx.isClass
     [⟨uGo, false, some (1, 1)⟩, ⟨oldA, false, some (10, -5)⟩, ⟨oldB, true, some (0, 0)⟩,
      ⟨yTxt, false, some (2, 2)⟩, ⟨zSpx, false, some (7, 1700000000000000000)⟩] =
     [(oldA, 10, -5), (zSpx, 7, 1700000000000000000)] := by decide
+
+/-- hypotheses of `C36_same_set_same_preimage_sorted` on a concrete pair of sorted listings
+that differ in irrelevant entries only -/
+example : ([⟨uGo, false, some (1, 1)⟩, ⟨oldA, false, some (10, -5)⟩, ⟨yTxt, false, some (2, 2)⟩] : List Entry).Pairwise
+    (fun x y => x.name < y.name) := by decide
+example : ([⟨oldA, false, some (10, -5)⟩, ⟨oldB, true, none⟩] : List Entry).Pairwise
+    (fun x y => x.name < y.name) := by decide
+example : relevant cfgSpx.isClass [⟨uGo, false, some (1, 1)⟩, ⟨oldA, false, some (10, -5)⟩, ⟨yTxt, false, some (2, 2)⟩] =
+    relevant cfgSpx.isClass [⟨oldA, false, some (10, -5)⟩, ⟨oldB, true, none⟩] := by decide
 
 example : relevantOf cfgSpx.isClass ⟨uGo, false, some (1, 1)⟩ = none := by decide
 example : relevantOf cfgNone.isClass ⟨zSpx, false, some (1, 1)⟩ = none := by decide
